@@ -3,12 +3,16 @@ Basic facts about `splitCommon`, `lookup` and canonical (`WFn`) subtrees used by
 proof (C02).  Core Lean only.
 -/
 import Verif.Model.Mpt
+import Verif.Lemmas.MptBasic
+import Verif.Lemmas.MptInsert
+import Verif.Lemmas.MptDelete
+import Verif.Lemmas.MptIterate
 import Verif.Lemmas.MptWF
 namespace Verif.Mpt
 
 /-! ### `splitCommon` -/
 
-theorem splitCommon_spec (p q : List Nib) :
+theorem splitCommon_spec_c (p q : List Nib) :
     p = (splitCommon p q).1 ++ (splitCommon p q).2.1 ∧ q = (splitCommon p q).1 ++ (splitCommon p q).2.2 := by
   fun_induction splitCommon p q with
   | case1 a p q r ih => simp [r] at *; exact ih
@@ -21,7 +25,7 @@ theorem splitCommon_append_left (ep q : List Nib) : splitCommon (ep ++ q) ep = (
   | cons a ep ih => simp [splitCommon, ih]
 
 theorem splitCommon_eq_nil_right {p ep c p' : List Nib} (h : splitCommon p ep = (c, p', [])) : p = ep ++ p' := by
-  have := splitCommon_spec p ep
+  have := splitCommon_spec_c p ep
   rw [h] at this
   simp at this
   obtain ⟨h1, h2⟩ := this
@@ -29,22 +33,22 @@ theorem splitCommon_eq_nil_right {p ep c p' : List Nib} (h : splitCommon p ep = 
 
 /-! ### `lookup` -/
 
-@[simp] theorem lookup_empty (q : List Nib) : lookup .empty q = none := by
+@[simp] theorem lookup_empty_c (q : List Nib) : lookup .empty q = none := by
   cases q <;> simp [lookup]
 
-theorem lookup_leaf (o : Nat) (lp : List Nib) (lv : Bytes) (q : List Nib) :
+theorem lookup_leaf_c (o : Nat) (lp : List Nib) (lv : Bytes) (q : List Nib) :
     lookup (.leaf o lp lv) q = if q = lp then (if lv = [] then none else some lv) else none := by
   cases q <;> simp [lookup]
 
-theorem lookup_full_nil (o : Nat) (ch : Nib → Node) (val : Option Bytes) :
+theorem lookup_full_nil_c (o : Nat) (ch : Nib → Node) (val : Option Bytes) :
     lookup (.full o ch val) [] = match val with | some b => if b = [] then none else some b | none => none := by
   cases val <;> simp [lookup]
 
-@[simp] theorem lookup_full_cons (o : Nat) (ch : Nib → Node) (val : Option Bytes) (x : Nib) (q : List Nib) :
+@[simp] theorem lookup_full_cons_c (o : Nat) (ch : Nib → Node) (val : Option Bytes) (x : Nib) (q : List Nib) :
     lookup (.full o ch val) (x :: q) = lookup (ch x) q := by
   simp [lookup]
 
-theorem lookup_ext_append (o : Nat) {ep : List Nib} (c : Node) (q : List Nib) (hep : ep ≠ []) :
+theorem lookup_ext_append_c (o : Nat) {ep : List Nib} (c : Node) (q : List Nib) (hep : ep ≠ []) :
     lookup (.ext o ep c) (ep ++ q) = lookup c q := by
   rw [lookup, splitCommon_append_left]
   simp [hep]
@@ -72,7 +76,7 @@ theorem lookup_full_congr {o₁ o₂ : Nat} {ch₁ ch₂ : Nib → Node} {val : 
     ∀ q, lookup (.full o₁ ch₁ val) q = lookup (.full o₂ ch₂ val) q := by
   intro q
   cases q with
-  | nil => rw [lookup_full_nil, lookup_full_nil]
+  | nil => rw [lookup_full_nil_c, lookup_full_nil_c]
   | cons x r => simpa using h x r
 
 end Verif.Mpt
